@@ -40,9 +40,12 @@ class SV(Term):
     def values(self): return SV("values", self)
 
     def __getitem__(self, i):
-        if isinstance(i, int):
+        if isinstance(i, (int, str)) and not isinstance(i, bool):
             return SV("item", self, i)
-        raise Unsupported("symbolic value[...] with a key that is not a position")
+        raise Unsupported("symbolic value[...] with a key that is neither a position nor a name")
+
+    def __round__(self, n=None):
+        return SV("round", self, n)
 
     def set_index(self, cols, **k):
         if k:
@@ -359,6 +362,11 @@ def round_trip(chk, td, fd, scaling: str, ts_features: List[str], train_features
     if not isinstance(back, AbsObj):
         return {"raises": "from_dict does not return the model it built"}
     diffs = {}
+    if _val_key(_dump(doc.get("settings"))) != _val_key(json_pass(_dump(settings)) if through_json else _dump(settings)):
+        diffs["settings"] = (_val_key(_dump(settings)), _val_key(doc.get("settings")))
+    bs = back.__dict__.get("settings")
+    if not isinstance(bs, RecObj) or _val_key(bs._fields().get("train_features")) != _val_key(list(train_features)) or bs._fields().get("scaling_method") != tok:
+        diffs["settings-restored"] = (_val_key(_dump(settings)), _val_key(_dump(bs)) if isinstance(bs, RecObj) else repr(bs)[:60])
     for p in JUDGED:
         p = p.format(loc=loc)
         a, b = _get_path(orig, p), _get_path(back, p)
